@@ -6,6 +6,7 @@ repo = sys.argv[1] if len(sys.argv) > 1 else '/repo'
 base = json.load(open('/root/.vp/BASELINE.json'))
 fd, xml = tempfile.mkstemp(suffix='.xml'); os.close(fd)
 env = dict(os.environ); env.pop('VERMOUTH_VERIF', None)
+env['HYPOTHESIS_STORAGE_DIRECTORY'] = tempfile.mkdtemp(prefix='hypo_')  # do not persist rare failing examples of the suite's own hypothesis tests
 subprocess.run(['/venv/bin/python', '-m', 'pytest', '-q', '-p', 'no:cacheprovider', '--timeout=900',
                 '--continue-on-collection-errors', '-n', '16', '--junitxml=' + xml],
                cwd=repo, env=env, stdout=subprocess.DEVNULL, stderr=subprocess.DEVNULL)
